@@ -4,12 +4,12 @@ CONSTANTS
  MaxIdx = 3
  MaxTerm = 2
  MaxSeg = 3
- MaxOps = 8
+ MaxOps = 6
  MaxHist = 0
- Groups = {1}
+ Groups = {1, 2}
  Snapshots = TRUE
 VIEW view
 INVARIANT RemovalSafe
 INVARIANT LsmDurable
-INVARIANT RaftExactStrict
+INVARIANT RaftExactModuloKnown
 CHECK_DEADLOCK FALSE
